@@ -90,6 +90,8 @@ pub fn gen_conc_run(verif_seed: u64, j: u64) -> ConcRun {
                 via_convert: rng.chance(1, 2),
                 pad_to: None,
                 rlimit: None,
+                litter: Vec::new(),
+                crash_at: None,
             });
         }
         tasks.push(ops);
